@@ -7,8 +7,8 @@ From Coq Require Import List NArith ZArith.
 From VQ Require Import Fifo Heap Manager.
 
 Extraction "model.ml"
-  Fifo.new_queue Fifo.enqueue Fifo.dequeue Fifo.qlen Fifo.values Fifo.purge Fifo.close Fifo.caps Fifo.qabs
+  Fifo.new_queue Fifo.enqueue Fifo.dequeue Fifo.qlen Fifo.values Fifo.purge Fifo.purge_values Fifo.close Fifo.caps Fifo.qabs
   Manager.new_mgr Manager.register Manager.unregister Manager.swap_remove Manager.mlen Manager.count
   Manager.get_max Manager.get_min Manager.get_rr
-  Heap.new_pq Heap.push Heap.pop Heap.plen Heap.pvalues Heap.ppurge Heap.pclose
+  Heap.new_pq Heap.push Heap.pop Heap.plen Heap.pvalues Heap.ppurge Heap.ppurge_values Heap.pclose
   N.of_nat N.to_nat Z.of_N Z.to_N Z.of_nat Z.opp Z.add Z.mul N.add N.mul Z.eqb N.eqb Nat.eqb.
